@@ -14,24 +14,40 @@ package compiler
 
 // C13: package, type and constructor names are the configured ones or the documented defaults.
 //@ func (*StepCompileMeta).Process
-//@   property C13
+//@   property C13 C14
 //@   requires d != nil
 //@   requires [wired] s.aliasRegisterer != nil && s.funcRegisterer != nil
 //@   modifies d.Meta
 //@   ensures [pkg] d.Meta.Pkg == (i.Meta.Pkg == nil ? "main" : *i.Meta.Pkg)
 //@   ensures [container_type] d.Meta.ContainerType == (i.Meta.ContainerType == nil ? "Gontainer" : *i.Meta.ContainerType)
 //@   ensures [container_constructor] d.Meta.ContainerConstructor == (i.Meta.ContainerConstructor == nil ? "NewGontainer" : *i.Meta.ContainerConstructor)
+//@   ensures [aliases_registered_before_functions] forall a int, b int :: old(tlen()) <= a && a < tlen() && old(tlen()) <= b && b < tlen()
+//@        && evIs(a, "internal/pkg/compiler:funcRegisterer.RegisterFunc") && evIs(b, "internal/pkg/compiler:aliasRegisterer.RegisterPrefixAlias") ==> b < a
+//@   ensures [every_alias_registered] forall n string :: n in i.Meta.Imports ==> (exists b int :: old(tlen()) <= b && b < tlen()
+//@        && evIs(b, "internal/pkg/compiler:aliasRegisterer.RegisterPrefixAlias") && evS1(b) == n && evS2(b) == i.Meta.Imports[n])
 
+// C14: every entry of meta.imports is registered (one RegisterPrefixAlias per alias, in alias order) and nothing else
+// happens; functions are registered afterwards, so that whatever a registered function resolves is resolved against
+// the complete alias table.
 // Composition invariant (established by the DI root, evaluated not proved): injected collaborators are non-nil.
 //@ func (*StepCompileMeta).handleImports
 //@   property C14
 //@   requires [wired] s.aliasRegisterer != nil
+//@   ensures [registers_aliases_only] tlen() >= old(tlen()) && (forall k int :: old(tlen()) <= k && k < tlen() ==> evIs(k, "internal/pkg/compiler:aliasRegisterer.RegisterPrefixAlias"))
+//@   ensures [every_alias_registered] forall n string :: n in imports ==> (exists b int :: old(tlen()) <= b && b < tlen()
+//@        && evIs(b, "internal/pkg/compiler:aliasRegisterer.RegisterPrefixAlias") && evS1(b) == n && evS2(b) == imports[n])
 //@   loop 1
 //@     invariant [errs_nonneg] len(errs) >= 0
+//@     invariant [only] tlen() >= old(tlen()) && (forall k int :: old(tlen()) <= k && k < tlen() ==> evIs(k, "internal/pkg/compiler:aliasRegisterer.RegisterPrefixAlias"))
+//@     invariant [done] forall n string :: n in visited ==> (exists b int :: old(tlen()) <= b && b < tlen()
+//@        && evIs(b, "internal/pkg/compiler:aliasRegisterer.RegisterPrefixAlias") && evS1(b) == n && evS2(b) == imports[n])
 
 //@ func (*StepCompileMeta).handleFunctions
 //@   property C14 C15
 //@   requires [wired] s.funcRegisterer != nil
+//@   ensures [registers_functions_only] tlen() >= old(tlen()) && (forall k int :: old(tlen()) <= k && k < tlen() ==> evIs(k, "internal/pkg/compiler:funcRegisterer.RegisterFunc"))
+//@   loop 1
+//@     invariant [only] tlen() >= old(tlen()) && (forall k int :: old(tlen()) <= k && k < tlen() ==> evIs(k, "internal/pkg/compiler:funcRegisterer.RegisterFunc"))
 
 // C05: scope keyword -> output scope. The scope of every compiled service is the image of the declared
 // scope of the service with the same name (unset -> default); nothing else in *o changes.
